@@ -17,6 +17,20 @@ CHECKS = {
                      "access during the operation or without happens-before to it, any runtime assert, deadlock or livelock fails.",
                 note="trusted: loom's memory model and the shim's faithful forwarding; polls are modelled at harness level; "
                      "std atomics outside the shim are not scheduling points"),
+    "C07": dict(level="exploration", engine="encspace", design="5/C07",
+                technique="bounded-exhaustive enumeration (no sampling) of every public instruction method x full product of finite "
+                          "operand domains, differential against llvm-mc (LLVM 14) as reference decoder/assembler",
+                text="Every instruction-emitting pub fn of dora-asm's AssemblerX64 (209, parsed from the current source; unknown "
+                     "methods are listed as uncovered) and the 213 instruction methods of the Dora twin pkgs/boots/assembler/x64.dora "
+                     "are called for the complete product of: all 16 GPRs / 16 XMM registers per register operand, every addressing "
+                     "shape (base+disp, base+index*scale+disp, index*scale+disp, RIP+disp; all bases/indexes incl. rsp/r12 and "
+                     "rbp/r13, scales 1/2/4/8, disp8/disp32 boundaries), boundary immediates of each width incl. out-of-range probes "
+                     "that must be refused, all 28 condition variants, rounding immediates, has_avx2 off and on; label references "
+                     "backward/forward/multiple at 0,1,126,127,128,129,65536 bytes. For every emitted case llvm-mc decodes exactly the "
+                     "case's bytes and the text must equal llvm-mc's decoding of its own assembly of the requested instruction; "
+                     "branch/label displacements must hit the bound position. Quick ~4.5M + 0.5M (twin) compared cases, thorough ~21M + 7M.",
+                note="finite product completed; bounded by the boundary sets for 32-bit displacements/immediates and the padding "
+                     "distances; trusts llvm-mc 14; [1*r+d] and [r+d] print identically; three printer aliases normalised on both sides"),
     "C09": dict(level="model_checking", engine="sched", design="5/C09",
                 technique="loom model checking of Mutex/Condition interpreted from thread.dora over the real wait-list code; "
                           "explicit-state BFS of the real wait table against a reference map",
